@@ -19,6 +19,12 @@ MOLS = {
     "H4": "H 0 0 0; H 0 0 0.9; H 0 0 1.9; H 0 0 2.8",
     "LiH": "Li 0 0 0; H 0 0 1.6",
     "H2O": "O 0 0 0.1173; H 0 0.7572 -0.4692; H 0 -0.7572 -0.4692",
+    # the same molecule with a hydrogen first: the first AO of the molecule is then not the one of the p-shell atom
+    "HOH": "H 0 0.7572 -0.4692; O 0 0 0.1173; H 0 -0.7572 -0.4692",
+    "NH3": "N 0 0 0.1; H 0 0.94 -0.27; H 0.81 -0.47 -0.27; H -0.81 -0.47 -0.27",
+    "H2O/6-31g": "O 0 0 0.1173; H 0 0.7572 -0.4692; H 0 -0.7572 -0.4692",
+    "LiH/6-31g": "Li 0 0 0; H 0 0 1.6",
+    "H2/cc-pvdz": "H 0 0 0; H 0 0 0.74",
 }
 
 
@@ -404,9 +410,10 @@ def derivative_records(chk, code, insts, orc, push):
 # ----------------------------------------------------------------------------- chunked routine
 def chunked_records(chk, code, push):
     from pyscf import gto
-    names = ["H2", "H4"] if chk.tier == "quick" else ["H2", "H4", "LiH", "H2O"]
+    # molecules with multi-function (p) shells exercise the AO -> shell bookkeeping of the chunked routine
+    names = ["H2", "H4", "LiH", "H2O", "HOH"] if chk.tier == "quick" else list(MOLS)
     for name in names:
-        mol = gto.M(atom=MOLS[name], basis="sto-3g", verbose=0)
+        mol = gto.M(atom=MOLS[name], basis=name.split("/")[1] if "/" in name else "sto-3g", verbose=0)
         nao = mol.nao_nr()
         eri = mol.intor("int2e").reshape(nao * nao, nao * nao)
         for t in (1e-3, 1e-5, 1e-7):
@@ -463,7 +470,7 @@ def report(chk, recs, info, verdicts):
                      f"(rank {rk})",
             "jax": f"linalg_utils.modified_cholesky(M, norb, {k.get('cnt')}) on a {k['n']}x{k['n']} PSD matrix of rank {rk}",
             "jvp": f"jax.jvp of M -> Gram(linalg_utils.modified_cholesky(M, norb, {rk})), {k['n']}x{k['n']}",
-            "chunked": f"pyscf_interface.chunked_cholesky({k['inst']}/sto-3g, {k.get('thr')})",
+            "chunked": f"pyscf_interface.chunked_cholesky({k['inst'] if '/' in k['inst'] else k['inst'] + '/sto-3g'}, {k.get('thr')})",
         }[k["routine"]]
         qty = "max|jvp - exact tangent (TLC)|" if k["routine"] == "jvp" else "max|M - sum_g L_g L_g^T|"
         if k.get("exception"):
